@@ -62,7 +62,10 @@ class Prop:
                   "Real pointer arithmetic is only watched by ASan/UBSan (thorough tier).")
     rule = ("operation sequences over muduo::net::Buffer: exhaustive over a boundary alphabet up to a small depth, "
             "then random sequences up to 200 operations with sizes from the boundary alphabet (0,1,7,8,9,1023..1025,"
-            "65535..65537,1<<20) and random sizes; a case is non-trivial when it contains at least one accepted "
+            "65535..65537,1<<20) and random sizes; readFd with exactly / next to the most one call may take pending on the "
+            "descriptor (writable + 64 KiB + {-1,0,1,65536,65537,200000}) for six initial sizes and four pre-histories; one "
+            "free-running scenario (oracle only): 4-6 threads call readFd concurrently on their own buffers, every call spilling; "
+            "a case is non-trivial when it contains at least one accepted "
             "mutating operation; distinct = distinct observation traces")
     trusted_base = [
         "Lean 4.33.0 kernel; axioms allowed: propext, Classical.choice, Quot.sound",
@@ -399,7 +402,7 @@ class Prop:
         Buffer is documented as not thread safe PER OBJECT; distinct objects on distinct threads (one per connection, one
         loop thread each) must not influence each other - storage shared between calls shows here"""
         exe = ctx.exe("buffer_drv", fl)
-        threads, rounds = (4, 3000) if ctx.quick() else (6, 20000)
+        threads, rounds = (4, 3000) if ctx.quick() else (6, 6000)
         case = Case("buffer", ["mtReadFd %d %d" % (threads, rounds)], "mt-readfd")
         impl, err = ctx.run_impl(exe, case, timeout=600)
         obs = [l for b in impl for l in ctx.observable(b)]
